@@ -6,6 +6,8 @@
 package main
 
 import (
+	"image"
+	"image/color"
 	"bytes"
 	"encoding/json"
 	"fmt"
@@ -36,6 +38,13 @@ type job struct {
 	Runs  []int  `json:"runs"`
 	Q     int    `json:"q"`
 	Scale int    `json:"scale"`
+	// kind "qr": optional CHARACTER_SET hint for the writer (the reader then decodes an ECI-designated byte segment)
+	Cs string `json:"cs"`
+	// kind "aztec": a reference Aztec symbol (module matrix as rows of 16-bit chunks, built by TLC from spec/Aztec.tla)
+	Rows [][]int `json:"rows"`
+	// First: in the first round EVERY goroutine starts with this job, at the same moment - state that is built lazily on
+	// first use (tables, caches) is then first used by all of them at once
+	First int `json:"first"`
 }
 
 type in struct {
@@ -46,6 +55,16 @@ type in struct {
 	Seed   int64  `json:"seed"`
 	Jobs   []job  `json:"jobs"`
 	Share  int    `json:"share"` // self-test only: 1 = all goroutines deliberately share one RS encoder object through the public API
+}
+
+func nfirst(js []job) int {
+	n := 0
+	for _, j := range js {
+		if j.First == 1 {
+			n++
+		}
+	}
+	return n
 }
 
 func gid() int {
@@ -144,6 +163,27 @@ func run(j job) (uint32, uint32) {
 	case "runs":
 		o := odr.Decode(odr.Reader(j.Sym), odr.Render(j.Runs, j.Q, j.Scale, 12), nil)
 		return crc32.ChecksumIEEE([]byte(fmt.Sprint(j.Sym, len(j.Runs)))), crc32.ChecksumIEEE([]byte(fmt.Sprint(o.Text, o.Err, o.Ext, o.Fmt, o.Panic)))
+	case "aztec":
+		n := len(j.Rows)
+		sc, q := 3, 2
+		img := image.NewGray(image.Rect(0, 0, (n+2*q)*sc, (n+2*q)*sc))
+		for i := range img.Pix {
+			img.Pix[i] = 255
+		}
+		for y := 0; y < n; y++ {
+			for x, b := range hlib.Unchunk(j.Rows[y], n) {
+				if b {
+					for dy := 0; dy < sc; dy++ {
+						for dx := 0; dx < sc; dx++ {
+							img.SetGray((q+x)*sc+dx, (q+y)*sc+dy, color.Gray{Y: 0})
+						}
+					}
+				}
+			}
+		}
+		bmp, _ := gozxing.NewBinaryBitmapFromImage(img)
+		res, rerr := aztec.NewAztecReader().Decode(bmp, nil)
+		return crc32.ChecksumIEEE([]byte(fmt.Sprint("aztec", n))), digestResult(res, rerr)
 	case "qr":
 		w, r, f = qrcode.NewQRCodeWriter(), qrcode.NewQRCodeReader(), gozxing.BarcodeFormat_QR_CODE
 	case "dm":
@@ -173,7 +213,11 @@ func run(j job) (uint32, uint32) {
 	default:
 		return 0, 0
 	}
-	m, err := w.Encode(j.Text, f, j.W, j.H, nil)
+	var wh map[gozxing.EncodeHintType]interface{}
+	if j.Cs != "" {
+		wh = map[gozxing.EncodeHintType]interface{}{gozxing.EncodeHintType_CHARACTER_SET: j.Cs}
+	}
+	m, err := w.Encode(j.Text, f, j.W, j.H, wh)
 	d1 := digestMatrix(m, err)
 	if err != nil || m == nil {
 		return d1, 0
@@ -216,6 +260,13 @@ func main() {
 			var wg sync.WaitGroup
 			for g := 0; g < e.K; g++ {
 				mine := []int{}
+				if round == 0 {
+					for ji, j := range e.Jobs {
+						if j.First == 1 {
+							mine = append(mine, ji)
+						}
+					}
+				}
 				for n, ji := range perm {
 					if n%e.K == g {
 						mine = append(mine, ji)
@@ -275,7 +326,7 @@ func main() {
 			own = append(own, []interface{}{k.g, k.loc, k.obj, c[0], c[1]})
 		}
 		mu.Unlock()
-		return map[string]interface{}{"op": "round", "k": e.K, "rounds": e.Rounds, "procs": e.Procs, "njobs": len(e.Jobs),
+		return map[string]interface{}{"op": "round", "k": e.K, "rounds": e.Rounds, "procs": e.Procs, "njobs": len(e.Jobs), "nfirst": nfirst(e.Jobs),
 			"main": mainG, "own": own, "res": res, "races": 0, "panic": 0}, nil
 	})
 }
